@@ -212,6 +212,41 @@ def runSplit (recheck : Bool) (sid : Nat → Nat) (s : St) : List ActS → Optio
     | some s' => runSplit recheck sid s' as
     | none => none
 
+/-! ### `Pipeline::process` with send BEFORE track
+
+The code does `tasks.track(hash)` → `pipeline_tx.send(event)` → `task.ready()` (the submitter pcs idle → tracked →
+sent; the order is re-extracted from pipeline.rs in `P2/Props/C14.lean`). `stepReorder` is the other order:
+`sendEarly` puts the event into the channel while nothing is tracked yet, `track` comes afterwards and `enter`
+starts `ready()` without sending again. `mark_as_done` on an id that is not tracked is a no-op (`remove` → idle). -/
+
+inductive ActR
+  | base (a : Act)
+  | sendEarly (t : Nat)
+  | enter (t : Nat)
+deriving DecidableEq, Repr
+
+def stepReorder (sid : Nat → Nat) (s : St) : ActR → Option St
+  | .base (.send _) => none
+  | .base a => stepFn .fixed sid s a
+  | .sendEarly t =>
+    match s.pc t with
+    | .idle => some { s with queue := s.queue ++ [⟨sid t, t⟩] }
+    | _ => none
+  | .enter t =>
+    match s.pc t with
+    | .tracked x => some { s with pc := upd s.pc t (.sent x) }
+    | _ => none
+
+inductive ReachR (sid : Nat → Nat) : St → Prop
+  | init : ReachR sid init
+  | step {s s'} (a : ActR) : ReachR sid s → stepReorder sid s a = some s' → ReachR sid s'
+
+def runReorder (sid : Nat → Nat) (s : St) : List ActR → Option St
+  | [] => some s
+  | a :: as => match stepReorder sid s a with
+    | some s' => runReorder sid s' as
+    | none => none
+
 def Step (v : Variant) (sid : Nat → Nat) (s s' : St) : Prop := ∃ a, stepFn v sid s a = some s'
 
 inductive Reach (v : Variant) (sid : Nat → Nat) : St → Prop
